@@ -877,6 +877,13 @@ def r82(ctx: Ctx) -> RuleReport:
     stores = [nd for nd in cfg.nodes if nd.kind == 'stmt' and isinstance(nd.ast, ast.Assign) and isinstance(nd.ast.targets[0], ast.Subscript)
               and norm(nd.ast.targets[0].value).endswith('.metadata')]
     if not stores:
+        sd = [n for n in walk_local(fi.node) if isinstance(n, ast.Call) and isinstance(n.func, ast.Attribute) and n.func.attr == 'setdefault'
+              and norm(n.func.value).endswith('.metadata') and len(n.args) == 2]
+        if sd:
+            rep.violation(f'{fi.fq}: an error is recorded with g.metadata[<key>] = <text>', fi.loc(sd[0]),
+                          f'`{norm(sd[0])[:60]}` writes the entry only if the key is not there yet: a graph that already carries "# ::error-1 ..." (the output of an earlier --check '
+                          f'run fed back) keeps the old text, and the triple that offends now is not recorded although the exit status is 1')
+            return rep
         rep.undecided(f'{fi.fq}: an error is recorded with g.metadata[<key>] = <text>', fi.loc(), 'no store into .metadata')
         return rep
     errs = [nm for nm, vals in ctx.cg.local_assigns(fi).items()
